@@ -37,9 +37,9 @@ func runCLog(r *verifsim.Run) {
 	cfg.Cont = false
 	cfg.MinDiskMB = 0
 	// window closed for (most of) the run: the bubble clock starts at 00:00
-	cfg.WinStart, cfg.WinStop = "12:00", "13:00"
+	cfg.WinStart, cfg.WinStop = localHHMM(12*60), localHHMM(13*60) // closed for the whole run
 	if r.Chance(1, 3) {
-		cfg.WinStart, cfg.WinStop = fmt.Sprintf("00:%02d", r.Range(2, 6)), "13:00" // opens during the run
+		cfg.WinStart, cfg.WinStop = localHHMM(r.Range(2, 6)), localHHMM(13*60) // opens during the run
 	}
 	exp := &cfg.Exp
 	exp.DynamicThreshold, exp.TempThresh, exp.DeltaThresh, exp.CountThresh = false, 2900, 50, 1
